@@ -58,6 +58,13 @@ class Prop(BaseProp):
         # the excluded tuple (depth 0, index 0, non-zero fingerprint): model agreement only
         cases.append({"kind": "Ser", "start": {"prv": True, "key": (5).to_bytes(32, "big").hex(), "chain": rb(32).hex(), "depth": 0, "index": 0,
                                                "testnet": False, "pfpr": "deadbeef"}, "v": VERSIONS[3]})
+        # public export of private nodes, as constructed and after a round trip through the xprv string
+        for j, v in enumerate(VERSIONS[0:3] + VERSIONS[6:9]):
+            kk = scalars[j % len(scalars)]
+            kb = kk.to_bytes(32, "big")
+            st = {"prv": True, "key": (b"\x00" + kb if j % 2 == 0 else kb).hex(), "chain": rb(32).hex(), "depth": [1, 0, 255][j % 3],
+                  "index": [5, 0, 2 ** 31 + 1][j % 3], "testnet": j >= 3, "pfpr": None if j % 3 == 1 else rb(4).hex()}
+            cases.append({"kind": "PubOfPrv", "start": st, "v": v})
         # from_extended_key
         from btc_hd_wallet.bip32 import PrvKeyNode, PubKeyNode
         from btc_hd_wallet.helper import encode_base58_checksum
@@ -112,6 +119,21 @@ class Prop(BaseProp):
                         except Exception:
                             back.append(None)
             return {"ext": ext, "back": back, "or": c_oracles(rec), "err": ext is None}
+        if k == "PubOfPrv":
+            st = case["start"]
+            rec = Recorder()
+            with rec.installed():
+                try:
+                    nd = make_start(st)
+                    direct = nd.extended_public_key(version=case["v"])
+                except Exception:
+                    direct = None
+                try:
+                    nd2 = PrvKeyNode.parse(make_start(st).extended_private_key(), testnet=st["testnet"])
+                    re_ = nd2.extended_public_key(version=case["v"])
+                except Exception:
+                    re_ = None
+            return {"direct": direct, "re": re_, "or": c_oracles(rec), "err": direct is None}
         if k == "FromExt":
             rec = Recorder()
             with rec.installed():
@@ -148,6 +170,8 @@ class Prop(BaseProp):
         if k == "Ser":
             return "(Ser %s %s (%d) %s [%s])" % (obs["or"], c_start(case["start"]), case["v"], cres(obs["ext"], zs),
                                                  ";".join(c_pnode(p) for p in obs["back"]))
+        if k == "PubOfPrv":
+            return "(PubOfPrv %s %s (%d) %s %s)" % (obs["or"], c_start(case["start"]), case["v"], cres(obs["direct"], zs), cres(obs["re"], zs))
         if k == "FromExt":
             return "(FromExt %s %s %s)" % (obs["or"], zs(case["s"]), cres(obs["ob"], lambda o: '(%s, %s, "%s", "%s", %d, %d)' % (
                 cbool(o[0]), cbool(o[1]), o[2], o[3], o[4], o[5])))
